@@ -4,6 +4,17 @@ usage: tools/mk_hunt.py /tmp/hunt3 C01 C02 ...   (each agent gets only <root>/<i
 import json, os, subprocess, sys
 root = sys.argv[1]
 want = sys.argv[2:]
+FOCUS = {"": "", "history": """
+**This round concentrates on history-dependent behaviour.** Everything that can be seen on a fresh object in a fresh process
+on its first use has been checked many times over. Look for what goes wrong only AFTER something else happened inside the
+property's domain: the second or n-th use of the same object (connection, builder, socket, subroutine, instruction, executor,
+controller, parser / transpiler / deserializer, flavour, context-manager object); state left behind by an operation that was
+refused or raised (and was followed by a valid one); close / reopen, stop / re-register, flush boundaries; another
+application, connection, thread, node or flavour active in the same process in between; two calls that should commute;
+objects the caller passed in (lists, arrays, instructions) or got back, mutated or reused afterwards; module-level or
+class-level state (counters, registries, caches, default arguments) that survives from one use to the next.
+"""}
+focus = FOCUS[os.environ.get("HUNT_FOCUS", "")]
 props = [json.loads(l) for l in open('/verif/properties.jsonl')]
 for p in props:
     pid = p['id']
@@ -52,6 +63,7 @@ carried from one operation / subroutine / application / connection to the next, 
 error paths that leave state behind, and anything the statement promises "for all" that the code only does for the
 common case. Read the code, then write small programs that check your suspicion. Build a small independent model or
 brute-force search if it helps.
+{focus}
 
 For every genuine violation k = 1, 2, ... write into `{d}/out/<k>/`:
 * `demo.py` - a small self-contained program that exits non-zero and prints what was expected and what happened
